@@ -6,6 +6,7 @@
 //! owns (collect, sort_by_key, the skip-conflicting / merge-equal loop, the unwrap)
 //! runs for real, in both copies of `into_rangemap_safe`.
 use minidump_common::traits::IntoRangeMapSafe;
+use minidump::Module as _;
 use range_map::{Range, RangeMap};
 
 #[derive(Clone, Copy, Debug, PartialEq, Eq)]
@@ -308,6 +309,51 @@ fn c08_w_recorder_reached() {
     if calls == 1 && len == 2 {
         assert!(false);
     }
+}
+
+// ---------------------------------------------------------------- unloaded modules: all entries covering an address
+/// F: MinidumpUnloadedModuleList::modules_at_address (list assembled by the unloaded_module_list_from_parts hook)
+/// I: three unloaded modules (base u64, size u32 each; they may overlap or coincide), the address (u64)
+/// B: 3 modules
+/// A: index sorted by (start, end), which is how from_modules leaves it (its sort is not encodable: data-dependent length)
+/// O: exactly the modules whose range covers the address are reported - all of them (coinciding ones too), each once, nothing else; an address equal to a base or to the last byte counts as covered
+#[kani::proof]
+#[kani::unwind(6)]
+fn c08_q_unloaded_modules_at_address() {
+    // three unloaded modules that may overlap or coincide; index sorted by (start, end) as from_modules leaves it
+    let b: [u64; 3] = kani::any();
+    let s: [u32; 3] = kani::any();
+    kani::assume(s[0] > 0 && s[1] > 0 && s[2] > 0);
+    let e0 = b[0].checked_add(s[0] as u64 - 1);
+    let e1 = b[1].checked_add(s[1] as u64 - 1);
+    let e2 = b[2].checked_add(s[2] as u64 - 1);
+    kani::assume(e0.is_some() && e1.is_some() && e2.is_some());
+    let (e0, e1, e2) = (e0.unwrap(), e1.unwrap(), e2.unwrap());
+    kani::assume((b[0], e0) <= (b[1], e1) && (b[1], e1) <= (b[2], e2));
+    let mods = vec![minidump::MinidumpUnloadedModule::new(b[0], s[0], "a"), minidump::MinidumpUnloadedModule::new(b[1], s[1], "b"), minidump::MinidumpUnloadedModule::new(b[2], s[2], "c")];
+    let idx = vec![(range_map::Range::new(b[0], e0), 0usize), (range_map::Range::new(b[1], e1), 1usize), (range_map::Range::new(b[2], e2), 2usize)];
+    let list = minidump::verif::unloaded_module_list_from_parts(mods, idx);
+    let a: u64 = kani::any();
+    let mut got = [false; 3];
+    let mut n = 0;
+    for m in list.modules_at_address(a) {
+        let k = if m.base_address() == b[0] && m.size() == s[0] as u64 { 0 } else if m.base_address() == b[1] && m.size() == s[1] as u64 { 1 } else { 2 };
+        got[k] = true;
+        n += 1;
+        // a reported module covers the address
+        assert!(a >= m.base_address() && a - m.base_address() < m.size());
+    }
+    let w0 = a >= b[0] && a <= e0;
+    let w1 = a >= b[1] && a <= e1;
+    let w2 = a >= b[2] && a <= e2;
+    // every module covering the address is reported, and nothing else (count included: coinciding modules are all reported)
+    assert!(n == w0 as usize + w1 as usize + w2 as usize);
+    if w0 || w1 || w2 {
+        assert!(got[0] || got[1] || got[2]);
+    }
+    kani::cover!(n == 3, "three overlapping modules cover the address");
+    kani::cover!(w1 && a == b[1], "address equal to a module's base");
+    std::mem::forget(list);
 }
 
 #[path = "../playback/c08_rangemap.rs"]
